@@ -592,6 +592,8 @@ func c09Check(text, expect, class, offending string, res *core.CaseResult) {
 				res.Fail("C09/error-without-location/"+class, text, et)
 			} else if offending != "" && !strings.Contains(et, offending) {
 				res.Fail("C09/error-does-not-name-statement/"+class, text, fmt.Sprintf("expected the text to mention %q: %s", offending, et))
+			} else {
+				c09CheckLocation(text, et, class, offending, res)
 			}
 		}
 		return
@@ -600,6 +602,158 @@ func c09Check(text, expect, class, offending string, res *core.CaseResult) {
 		res.Fail("C09/accepted-but-invalid/"+class, text, "RFC 6020 says reject")
 	} else {
 		res.Fail("C09/rejected-but-valid/"+class, text, "RFC 6020 says accept; error: "+et)
+	}
+}
+
+// c09Kw is a statement of a text: where its keyword starts (line from 1, byte column from 0), and how deep it is nested.
+type c09Kw struct {
+	line, col, depth int
+	kw               string
+}
+
+// c09Keywords lists the statements of a text in order.  multiLine: a quoted string spans lines (its value
+// depends on the layout).
+func c09Keywords(text string) (kws []c09Kw, multiLine bool) {
+	line, ls, depth := 1, 0, 0
+	expectKw := true
+	for i := 0; i < len(text); {
+		c := text[i]
+		switch {
+		case c == '\n':
+			line++
+			ls = i + 1
+			i++
+		case c == ' ' || c == '\t' || c == '\r':
+			i++
+		case c == '/' && i+1 < len(text) && text[i+1] == '/':
+			for i < len(text) && text[i] != '\n' {
+				i++
+			}
+		case c == '/' && i+1 < len(text) && text[i+1] == '*':
+			e := strings.Index(text[i+2:], "*/")
+			if e < 0 {
+				return kws, multiLine
+			}
+			for _, b := range []byte(text[i : i+2+e+2]) {
+				if b == '\n' {
+					line++
+				}
+			}
+			i += 2 + e + 2
+			if k := strings.LastIndexByte(text[:i], '\n'); k >= ls {
+				ls = k + 1
+			}
+		case c == '{':
+			depth++
+			expectKw = true
+			i++
+		case c == '}':
+			depth--
+			expectKw = true
+			i++
+		case c == ';':
+			expectKw = true
+			i++
+		case c == '"' || c == '\'':
+			j := i + 1
+			for j < len(text) && text[j] != c {
+				if c == '"' && text[j] == '\\' {
+					j++
+				}
+				if j < len(text) && text[j] == '\n' {
+					multiLine = true
+					line++
+					ls = j + 1
+				}
+				j++
+			}
+			i = j + 1
+			expectKw = false
+		default:
+			j := i
+			for j < len(text) && !strings.ContainsRune(" \t\r\n;{}\"", rune(text[j])) {
+				j++
+			}
+			if expectKw {
+				kws = append(kws, c09Kw{line: line, col: i - ls, depth: depth, kw: text[i:j]})
+			}
+			expectKw = false
+			i = j
+		}
+	}
+	return kws, multiLine
+}
+
+// c09CheckLocation: the line and column of a rejection are those of a statement of the text - the offending
+// one or the one it stands in (cardinality is reported on the parent) - and they follow the statement when the
+// layout of the text changes.
+func c09CheckLocation(text, et, class, offending string, res *core.CaseResult) {
+	loc := func(et string) (l, c int) {
+		m := c09LocRe.FindStringSubmatch(et)
+		if m == nil {
+			return -1, -1
+		}
+		fmt.Sscan(m[1], &l)
+		fmt.Sscan(m[2], &c)
+		return
+	}
+	L, C := loc(et)
+	kws, multi := c09Keywords(text)
+	at := -1
+	present := false
+	for i, k := range kws {
+		if k.line == L && k.col == C {
+			at = i
+		}
+		if k.kw == offending {
+			present = true
+		}
+	}
+	res.Ev("locations_checked", 1)
+	if at < 0 {
+		res.Fail("C09/error-location-is-not-a-statement/"+class, text, et)
+		return
+	}
+	missing := strings.HasPrefix(class, "card/") && strings.HasSuffix(class, "/0") // (a required statement is not there: reported on the parent)
+	if offending != "" && present && !missing && kws[at].kw != offending {
+		child := false
+		for _, k := range kws[at+1:] {
+			if k.depth <= kws[at].depth {
+				break
+			}
+			if k.depth == kws[at].depth+1 && k.kw == offending {
+				child = true
+			}
+		}
+		if !child {
+			res.Fail("C09/error-location-is-another-statement/"+class, text, fmt.Sprintf("the location is that of %q, which is neither the %q statement nor its parent: %s", kws[at].kw, offending, et))
+			return
+		}
+	}
+	if multi {
+		return
+	}
+	// the same statements, every line starting in column 0, behind a comment header
+	lines := strings.Split(text, "\n")
+	ind := 0
+	for i, ln := range lines {
+		t := strings.TrimLeft(ln, " \t")
+		if i == L-1 {
+			ind = len(ln) - len(t)
+		}
+		lines[i] = t
+	}
+	const header = "// relaid\n\n"
+	t2 := header + strings.Join(lines, "\n")
+	acc2, et2, pan2 := c09Parse(t2)
+	res.Ev("locations_checked_after_relayout", 1)
+	switch L2, C2 := loc(et2); {
+	case pan2 != "":
+		res.Fail("C09/panic", t2, pan2)
+	case acc2:
+		res.Fail("C09/verdict-depends-on-layout/"+class, t2, "rejected as laid out first, accepted without indentation: "+et)
+	case L2 != L+2 || C2 != C-ind:
+		res.Fail("C09/error-location-does-not-follow-the-statement/"+class, t2, fmt.Sprintf("indented text: %s\nwithout indentation, two lines further down (expected %d:%d): %s", et, L+2, C-ind, et2))
 	}
 }
 
